@@ -321,6 +321,7 @@ class CliWorker:
                 if attempt == 2:
                     raise
         self.n = 0
+        self.prev_name = None
 
     def close(self):
         if self.repo:
@@ -363,7 +364,15 @@ class CliWorker:
         self.place(r.path(".xvc", "config.local.toml"), c["L"])
         name = "d%03d.bin" % self.n
         data = b"\x00C20 " + hashlib.sha1(json.dumps(c, sort_keys=True).encode()).digest() + bytes([self.n])
+        # every third command tracks a path again that an earlier command of this repository tracked (under whatever
+        # configuration was effective then) with new content: the EFFECTIVE algorithm decides, not the recorded one
+        prev = getattr(self, "prev_name", None)
+        if prev and self.n % 3 == 0:
+            name = prev
+            if os.path.lexists(r.path(name)):
+                os.unlink(r.path(name))
         r.write(name, data)
+        self.prev_name = name
         before = self.cache_files()
         args = ["--skip-git"] + [s for s, b in zip(SWITCHES, c["W"]) if b == "1"]
         for s in c["C"]:
@@ -390,6 +399,7 @@ class CliWorker:
         if res.failed:
             obs["err"] = (res.err or res.out)[-160:]
             self.fresh()
+            self.prev_name = None
         return obs
 
 
